@@ -1,3 +1,4 @@
 pub mod boxes;
 pub mod prog;
+pub mod shape;
 pub mod shrink;
